@@ -33,14 +33,15 @@ ValidIn(ctx, c) ==
 (* The admissible renderings of (abs, X) in ctx, given the previous text pre of  *)
 (* the path: the plain rendering when it can stand; the rendering with one      *)
 (* leading "." when the previous text already had one, or as a shield exactly   *)
-(* where the plain rendering cannot stand (first segment empty or with ":").    *)
+(* where the plain rendering cannot stand (first segment empty or with ":"); a  *)
+(* stand-alone path value may carry that shield in advance.                     *)
 Admissible(ctx, pre, abs, X) ==
     LET plain  == PlainOf(abs, X)
         dotted == DottedOf(abs, X)
         Ok(c)  == ReadsAs(c, abs, X) /\ ValidIn(ctx, c)
     IN  {c \in {plain, dotted} :
             /\ Ok(c)
-            /\ (c = dotted /\ ~HasLeadDot(pre)) => (~Ok(plain) /\ NeedsShield(DropLeadDot(X)))}
+            /\ (c = dotted /\ ~HasLeadDot(pre)) => (NeedsShield(DropLeadDot(X)) /\ (~Ok(plain) \/ ctx.kind = "path"))}
 
 (* Results of dot-segment removal.  A segment list made of one empty segment and  *)
 (* the empty list denote the same directory under RFC 3986 5.2.4 ("/./" becomes   *)
